@@ -544,6 +544,11 @@ class ItemConfig:
                 f'{scope_prefix}{symbol_or_name}', keys, use_pattern_matching=True, match_item_parents=True
             )) > 0
 
+        if use_name := getattr(getattr(symbol_or_name, 'type', None), 'use_name', None):
+            # Symbol has been renamed on import: entries refer to the name in the defining module
+            if cls.match_symbol_or_name(str(use_name), keys, scope=scope):
+                return True
+
         if parents := getattr(symbol_or_name, 'parents', None):
             type_name = parents[0].type.dtype.name
             parents = [parent.basename for parent in parents[1:]]
